@@ -1,11 +1,11 @@
 SPECIFICATION Spec
 CONSTANTS
-  Slots = {1, 2, 3}
+  Slots = {1, 2}
   L = 3
   Tags = {"A", "B"}
   EmitEdges = FALSE
   WithFaults = TRUE
-  TrackPeak = FALSE
+  TrackPeak = TRUE
 VIEW View
 INVARIANTS TypeOK Representation NoLeakByConstruction PeakIsHistory
 PROPERTIES OnlyNamedObjectsChange FaultsAreClean
